@@ -11,6 +11,7 @@ import (
 
 	"github.com/zmap/zcrypto/tls"
 	"verifmc/internal/ev"
+	"verifmc/internal/tlsx"
 )
 
 type scenA struct {
@@ -25,6 +26,10 @@ const (
 	mustResume = 1
 	mustNot    = 0
 	either     = -1
+	// mustNotMayFail: the ticket is authentic but the TLS 1.3 PSK binder is not. RFC 8446
+	// 4.2.11: "If this value is not present or does not validate, the server MUST abort
+	// the handshake" — a clean failure or a non-PSK handshake, never an accepted PSK.
+	mustNotMayFail = 2
 )
 
 type mutA struct {
@@ -35,16 +40,84 @@ type mutA struct {
 	// AllowMalformed: the ClientHello itself is not encodable per RFC 8446 (empty PSK
 	// identity): a handshake failure is accepted, a resumption is not.
 	AllowMalformed bool
+	// TLS 1.3 binder faults: the ticket bytes stay genuine.
+	Master     []byte // != nil: the client derives PSK and binder from this resumption secret instead
+	Nonce      []byte // != nil: ... from this ticket nonce instead
+	BinderEdit *binderEdit
+}
+
+// binderEdit rewrites the PSK binder of the ClientHello in flight (offset into the binder).
+type binderEdit struct {
+	Off  int  `json:"off"` // -1: every byte
+	Xor  byte `json:"xor"` // 0 with Off -1: set every byte to zero
+	Zero bool `json:"zero"`
+}
+
+// apply is installed as man-in-the-middle on the first client write: the ClientHello
+// record, whose last extension is pre_shared_key and whose last bytes are
+// binders<33..2^16-1> = one PskBinderEntry<32..255> (RFC 8446 4.2.11).
+func (b *binderEdit) apply(note *string) func(d tlsx.Dir, nth int, data []byte) [][]byte {
+	return func(d tlsx.Dir, nth int, data []byte) [][]byte {
+		if d != tlsx.C2S || nth != 0 {
+			return [][]byte{data}
+		}
+		n := len(data)
+		bad := func(why string) [][]byte { *note = why; return [][]byte{data} }
+		if n < 5+4+35 || data[0] != 22 || int(data[3])<<8|int(data[4]) != n-5 || data[5] != 1 ||
+			int(data[6])<<16|int(data[7])<<8|int(data[8]) != n-9 {
+			return bad("first write is not exactly one ClientHello record")
+		}
+		// walk to the extensions with the harness' own reader
+		r := rd{data[9:], true}
+		r.n(2 + 32)
+		r.n(r.u8())
+		r.n(r.u16())
+		r.n(r.u8())
+		ext := rd{r.n(r.u16()), r.ok}
+		if !ext.ok || len(r.b) != 0 {
+			return bad("ClientHello extensions do not end the message")
+		}
+		last, lastLen := -1, 0
+		for ext.ok && len(ext.b) > 0 {
+			last = ext.u16()
+			lastLen = len(ext.n(ext.u16()))
+		}
+		if !ext.ok || last != 41 || lastLen < 35 {
+			return bad("pre_shared_key is not the last extension")
+		}
+		// binders: uint16 total = 33, uint8 len = 32, 32 bytes
+		if data[n-35] != 0 || data[n-34] != 33 || data[n-33] != 32 {
+			return bad("not exactly one 32-byte binder at the end of the ClientHello")
+		}
+		bin := data[n-32:]
+		switch {
+		case b.Zero:
+			for i := range bin {
+				bin[i] = 0
+			}
+		case b.Off < 0:
+			for i := range bin {
+				bin[i] ^= b.Xor
+			}
+		default:
+			bin[b.Off] ^= b.Xor
+		}
+		*note = "done"
+		return [][]byte{data}
+	}
 }
 
 type witA struct {
-	Part     string `json:"part"`
-	Scenario scenA  `json:"scenario"`
-	Mutation string `json:"mutation"`
-	Class    string `json:"class"`
-	Ticket   string `json:"offered_ticket_hex"`
-	Genuine  string `json:"genuine_ticket_hex,omitempty"`
-	Observed string `json:"observed"`
+	Part     string      `json:"part"`
+	Scenario scenA       `json:"scenario"`
+	Mutation string      `json:"mutation"`
+	Class    string      `json:"class"`
+	Ticket   string      `json:"offered_ticket_hex"`
+	Genuine  string      `json:"genuine_ticket_hex,omitempty"`
+	Master   string      `json:"client_resumption_secret_hex,omitempty"`
+	Nonce    string      `json:"client_ticket_nonce_hex,omitempty"`
+	Binder   *binderEdit `json:"binder_edit_in_flight,omitempty"`
+	Observed string      `json:"observed"`
 }
 
 // env of one scenario: how to build configs and the genuine material.
@@ -61,7 +134,11 @@ type envA struct {
 }
 
 func (e *envA) configs(seed string) (cc, sc *tls.Config) {
-	cc, sc = cfgPair(idEd, "A-"+e.sc.String()+"-"+seed, e.sc.Vers, e.sc.Vers)
+	id := idEd
+	if e.sc.Vers < tls.VersionTLS12 {
+		id = idEC // Ed25519 certificates need signature_algorithms (TLS 1.2+)
+	}
+	cc, sc = cfgPair(id, "A-"+e.sc.String()+"-"+seed, e.sc.Vers, e.sc.Vers)
 	switch e.sc.Variant {
 	case "clientauth":
 		withClientAuth(cc, sc)
@@ -255,6 +332,31 @@ func mutationsA(e *envA, other []byte, cross []byte, crossVers uint16, pairs boo
 		// reference codec round trip: same key, same IV => byte-identical => must resume
 		add("identity", "re-sealed by the reference codec with the same key and IV", refSeal(pt, gen, gen, iv), false)
 	}
+	// TLS 1.3: authentic ticket, PSK binder that does not verify
+	if e.sc.Vers == tls.VersionTLS13 {
+		addB := func(class, detail string, m mutA) {
+			m.Class, m.Detail, m.Bytes, m.Expect = class, detail, append([]byte(nil), T...), mustNotMayFail
+			out = append(out, m)
+		}
+		for _, x := range []byte{0x01, 0x80} {
+			for i := range e.Gv.Master {
+				b := append([]byte(nil), e.Gv.Master...)
+				b[i] ^= x
+				addB("binder@client-secret", fmt.Sprintf("client derives PSK and binder from the resumption secret with byte %d ^%02x", i, x), mutA{Master: b})
+			}
+			for i := range e.Gv.Nonce {
+				b := append([]byte(nil), e.Gv.Nonce...)
+				b[i] ^= x
+				addB("binder@client-nonce", fmt.Sprintf("client derives PSK and binder from the ticket nonce with byte %d ^%02x", i, x), mutA{Nonce: b})
+			}
+			for i := 0; i < 32; i++ {
+				addB("binder@in-flight", fmt.Sprintf("binder byte %d ^%02x in flight", i, x), mutA{BinderEdit: &binderEdit{Off: i, Xor: x}})
+			}
+		}
+		addB("binder@in-flight", "every binder byte ^ff in flight", mutA{BinderEdit: &binderEdit{Off: -1, Xor: 0xff}})
+		addB("binder@in-flight", "binder set to zero in flight", mutA{BinderEdit: &binderEdit{Off: -1, Zero: true}})
+		addB("binder@client-nonce", "client derives PSK and binder from the ticket nonce with one zero byte appended", mutA{Nonce: append(append([]byte(nil), e.Gv.Nonce...), 0)})
+	}
 	// ticket of the other protocol version (sealed under the SAME current key)
 	if cross != nil {
 		add("cross-version", versName(crossVers)+" ticket of the same server offered in "+versName(e.sc.Vers), append([]byte(nil), cross...), false)
@@ -267,7 +369,8 @@ func judgeA(c *ev.Ctx, h ev.Hist, e *envA, m mutA, o *connOut) {
 	v := versName(e.sc.Vers)
 	w := func(obs string) witA {
 		return witA{Part: "A", Scenario: e.sc, Mutation: m.Detail, Class: m.Class,
-			Ticket: hex.EncodeToString(m.Bytes), Genuine: hex.EncodeToString(e.Gv.Ticket), Observed: obs}
+			Ticket: hex.EncodeToString(m.Bytes), Genuine: hex.EncodeToString(e.Gv.Ticket), Observed: obs,
+			Master: hex.EncodeToString(m.Master), Nonce: hex.EncodeToString(m.Nonce), Binder: m.BinderEdit}
 	}
 	c.Evaluations.Add(1)
 	if o.Panic != "" {
@@ -278,6 +381,25 @@ func judgeA(c *ev.Ctx, h ev.Hist, e *envA, m mutA, o *connOut) {
 	if !bytes.Equal(o.Offered, m.Bytes) && !(len(o.Offered) == 0 && len(m.Bytes) == 0) {
 		c.Incomplete(fmt.Sprintf("part A %s: the client did not put the prepared ticket on the wire (%s)", e.sc, m.Class))
 		h["vacuous:not-offered"]++
+		return
+	}
+	if m.Expect == mustNotMayFail {
+		if m.BinderEdit != nil && o.MitmNote != "done" {
+			c.Broken("part A %s: binder not rewritten in flight: %s", e.sc, o.MitmNote)
+		}
+		switch {
+		case o.SRes || o.CRes || o.WireResumed == 1:
+			c.Violation(fmt.Sprintf("%s %s: server ACCEPTED the PSK of an authentic ticket although the binder does not verify", v, m.Class),
+				w(fmt.Sprintf("resumed(c/s/wire)=%v/%v/%d ok=%v %s", o.CRes, o.SRes, o.WireResumed, o.ok(), o.failure())))
+			h["binder-accepted"]++
+		case !o.ok():
+			h[v+" "+m.Class+" => handshake aborted, PSK not accepted"]++
+		default:
+			h[v+" "+m.Class+" => full/non-PSK handshake"]++
+			if !o.DataOK {
+				c.Violation(fmt.Sprintf("%s %s ticket: application data does not flow after the handshake", v, m.Class), w(o.DataErr))
+			}
+		}
 		return
 	}
 	if !o.ok() {
@@ -328,7 +450,20 @@ func runMutA(c *ev.Ctx, h ev.Hist, e *envA, m mutA) *connOut {
 		e.serverResume(sc)
 		v := e.Gv
 		v.Ticket = m.Bytes
-		o := runConn(cc, sc, tls.VerifC31Derive(e.G, v))
+		if m.Master != nil {
+			v.Master = m.Master
+		}
+		if m.Nonce != nil {
+			v.Nonce = m.Nonce
+		}
+		var prep func(*tlsx.Net)
+		note := ""
+		if m.BinderEdit != nil {
+			note = "ClientHello never written"
+			prep = func(n *tlsx.Net) { n.Mitm = m.BinderEdit.apply(&note) }
+		}
+		o := runConnPrep(cc, sc, tls.VerifC31Derive(e.G, v), prep)
+		o.MitmNote = note
 		c.Transitions.Add(int64(o.Records))
 		if rep == 0 {
 			first = o
@@ -370,6 +505,8 @@ func partA(c *ev.Ctx) {
 			scens = append(scens, scenA{v, va})
 		}
 	}
+	// tickets issued at TLS 1.0 / 1.1 (same ticket format as 1.2, other record protection)
+	scens = append(scens, scenA{tls.VersionTLS10, "plain"}, scenA{tls.VersionTLS11, "plain"})
 	envs := map[string]*envA{}
 	for _, s := range scens {
 		envs[s.String()] = prepareA(c, s)
@@ -384,7 +521,7 @@ func partA(c *ev.Ctx) {
 		e := envs[s.String()]
 		// the cross-version ticket comes from the scenario of the other version, same variant, same key
 		ov := tls.VersionTLS13
-		if s.Vers == tls.VersionTLS13 {
+		if s.Vers == tls.VersionTLS13 || s.Vers < tls.VersionTLS12 {
 			ov = tls.VersionTLS12
 		}
 		cross := envs[scenA{uint16(ov), s.Variant}.String()].Gv.Ticket
@@ -429,8 +566,18 @@ func replayA(c *ev.Ctx, raw json.RawMessage) {
 		exp = mustResume
 	}
 	h := ev.Hist{}
-	o := runMutA(c, h, e, mutA{Class: w.Class, Detail: w.Mutation, Bytes: b, Expect: exp,
-		AllowMalformed: len(b) == 0 && w.Scenario.Vers == tls.VersionTLS13})
+	m := mutA{Class: w.Class, Detail: w.Mutation, Bytes: b, Expect: exp,
+		AllowMalformed: len(b) == 0 && w.Scenario.Vers == tls.VersionTLS13}
+	if w.Master != "" || w.Nonce != "" || w.Binder != nil {
+		m.Expect, m.BinderEdit = mustNotMayFail, w.Binder
+		if w.Master != "" {
+			m.Master, _ = hex.DecodeString(w.Master)
+		}
+		if w.Nonce != "" {
+			m.Nonce, _ = hex.DecodeString(w.Nonce)
+		}
+	}
+	o := runMutA(c, h, e, m)
 	c.Merge(h)
 	c.States.Add(1)
 	fmt.Printf("replay A %s [%s]: ok=%v resumed(c/s/wire)=%v/%v/%d data=%v %s\n", w.Scenario, w.Mutation, o.ok(), o.CRes, o.SRes, o.WireResumed, o.DataOK, o.failure())
